@@ -24,6 +24,7 @@ import (
 	"os"
 	"path/filepath"
 	"sort"
+	"strings"
 	"syscall"
 
 	"cloud.google.com/go/storage"
@@ -198,10 +199,10 @@ func (o *GcsFile) readdirImpl(count int) ([]*FileInfo, error) {
 	}
 
 	path := o.resource.fs.ensureTrailingSeparator(o.resource.name)
+	bucketName, bucketPath := o.resource.fs.splitName(path)
+	ownPath := strings.TrimRight(bucketPath, o.resource.fs.separator)
 	if o.ReadDirIt == nil {
 		// log.Printf("Querying path : %s\n", path)
-		bucketName, bucketPath := o.resource.fs.splitName(path)
-
 		o.ReadDirIt = o.resource.fs.client.Bucket(bucketName).Objects(
 			o.resource.ctx, &storage.Query{Delimiter: o.resource.fs.separator, Prefix: bucketPath, Versions: false})
 	}
@@ -233,8 +234,9 @@ func (o *GcsFile) readdirImpl(count int) ([]*FileInfo, error) {
 			continue
 		}
 
-		if tmp.Name() == ownInfo.Name() {
-			// Hmmm
+		if strings.TrimRight(tmp.name, o.resource.fs.separator) == ownPath {
+			// the folder's own placeholder object; full names are compared, because a child
+			// may well carry the same base name as the folder it is in (folder "d", child "d/d")
 			continue
 		}
 
